@@ -82,24 +82,61 @@ def run(chk, repo: Repo):
     chk.add("C20-R1", f"{pf.qual}._create_prec_matrix", ok, site(repo, cp), "D.T @ D",
             f"precision matrix is `{shown}`, not D.T @ D of the stored difference operator", cp)
     init = repo.method(pf, "__init__")[1]
-    t = _norm(init)
-    ok = "iforder==0:self._diff_op=FirstOrderFiniteDifference(num_nodes,'none')" in t and "eliforder==1:self._diff_op=FirstOrderFiniteDifference(num_nodes,bc_type=bc_type)" in t \
-        and "eliforder==2:self._diff_op=SecondOrderFiniteDifference(num_nodes,bc_type=bc_type)" in t and "else:raiseNotImplementedError" in t
-    chk.add("C20-R1", f"{pf.qual}.__init__", ok, site(repo, init), "order 0/1/2 -> identity / first / second difference operator with the given boundary condition; else refuse",
-            "order dispatch of the precision operator changed", init)
+    # order dispatch as a table: for each value of `order` the path through __init__ is followed and the value stored in self._diff_op read off
+    from .common import canon_fn, case_valuation, OTHER, KwCanon, expected_text, closed_outcomes
+    from ..pathtable import walk, _Sub
+    from ..pattern import norm as pn
+    from ..canon import clone as _clone
+    iv = canon_fn(repo, pf, init, 1)
+    nn, bc, od = func_params(init)[1:4]
+    kc = KwCanon()
+    for cname in ("FirstOrderFiniteDifference", "SecondOrderFiniteDifference"):
+        kc.add(cname, repo.method(repo.cls(f"{OP}:{cname}"), "__init__")[1])
+    want = {0: f"FirstOrderFiniteDifference({nn},'none')", 1: f"FirstOrderFiniteDifference({nn},bc_type={bc})", 2: f"SecondOrderFiniteDifference({nn},bc_type={bc})", OTHER: None}
+    bad, undec = [], []
+    for val, w in want.items():
+        kind, res = walk(iv, case_valuation(iv, od, val), pn, stop_pred=lambda a_: isinstance(a_, ast.Assign) and path_of(a_.targets[0]) == "self._diff_op")
+        if kind == "unknown":
+            undec.append(f"order={val}: {res}")
+        elif w is None:
+            if kind != "raise":
+                bad.append(f"order outside 0/1/2 is not refused ({kind})")
+        else:
+            got = pn(kc.visit(_Sub(res[0]).visit(_clone(res[1].value)))) if kind == "stop" else kind
+            if got != expected_text(w, kc):
+                bad.append(f"order={val}: self._diff_op = `{got}`, expected `{w}`")
+    chk.decide("C20-R1", f"{pf.qual}.__init__", not bad and not undec, not undec, site(repo, init),
+               "order 0/1/2 -> identity / first / second difference operator with the given boundary condition; else refuse",
+               "order dispatch of the precision operator changed: " + "; ".join(bad or undec), init)
     # R2
     gm = repo.cls("cuqi/distribution/_gmrf.py:GMRF")
     lp = repo.method(gm, "logpdf")[1]
-    t = _norm(lp)
-    ok = "mean=self.mean" in t and "(x-mean).T@(self._prec_op@(x-mean))" in t and "const=0.5*(self._rank*(np.log(self.prec)-np.log(2*np.pi))+self._logdet)" in t \
-        and "returnconst-0.5*(self.prec*" in t
-    chk.add("C20-R2", f"{gm.qual}.logpdf", ok, site(repo, lp), "quadratic form of (x - mean) in the precision operator, normalised with rank and logdet of the same object",
-            "GMRF log-density does not act on the shifted variable through its own precision operator/rank/logdet", lp)
+    x = func_params(lp)[1]
+    got = closed_outcomes(repo, gm, lp)
+    E = expected_text(f"0.5*(self._rank*(np.log(self.prec)-np.log(2*np.pi))+self._logdet)-0.5*(self.prec*(({x}-self.mean).T@(self._prec_op@({x}-self.mean))))")
+    chk.add("C20-R2", f"{gm.qual}.logpdf", got == {("return", E)}, site(repo, lp), "quadratic form of (x - mean) in the precision operator, normalised with rank and logdet of the same object",
+            f"GMRF log-density does not act on the shifted variable through its own precision operator/rank/logdet: closed form {sorted(got, key=str)}", lp)
     for mod, cls, meths in (("cuqi/distribution/_lmrf.py", "LMRF", ("logpdf", "pdf")), ("cuqi/distribution/_cmrf.py", "CMRF", ("logpdf",))):
         ci = repo.cls(f"{mod}:{cls}")
         for mname in meths:
             f = repo.method(ci, mname)[1]
-            ok = "Dx=self._diff_op@(x-self.location)" in _norm(f)
+            # in the closed form of the returned value the argument occurs only inside `self._diff_op @ (x - self.location)`
+            x = func_params(f)[1]
+            outs = closed_outcomes(repo, ci, f, project=lambda e: e)
+            from ..pathtable import walk_all
+            fv = canon_fn(repo, ci, f, 1)
+            seen_d = [0]
+
+            class _D(ast.NodeTransformer):
+                def visit_BinOp(self, n):
+                    if pn(n) == pn(f"self._diff_op@({x}-self.location)"):
+                        seen_d[0] += 1
+                        return ast.Name(id="_DX", ctx=ast.Load())
+                    return self.generic_visit(n)
+            res = walk_all(fv, {}, pn, project=lambda e: _D().visit(_clone(e)))
+            rets = [t for k_, t in res if k_ == "return"]
+            import re as _re
+            ok = bool(rets) and seen_d[0] > 0 and all(k_ in ("return", "raise") for k_, _ in res) and not any(_re.search(rf"(?<![A-Za-z0-9_.]){x}(?![A-Za-z0-9_])", t or "") for t in rets)
             chk.add("C20-R2", f"{ci.qual}.{mname}", ok, site(repo, f), "differences of x - location",
                     f"{cls}.{mname} does not apply the difference operator to the shifted variable x - location", f)
     # R3
@@ -172,11 +209,9 @@ def run(chk, repo: Repo):
     ranks = []
     for n in gg.nodes:
         if isinstance(n.ast, ast.Assign) and n.kind == "stmt" and path_of(n.ast.targets[0]) == "self._rank":
-            lits = [tt.ast.comparators[0].value for tt, lab in gg.guards_of(n) if lab == "T" and isinstance(tt.ast, ast.Compare) and _norm(tt.ast.left) == "bc_type"]
-            if not lits:
-                # `or` of two literals: reachable from either
-                lits = [tt.ast.comparators[0].value for tt in gg.tests() if isinstance(tt.ast, ast.Compare) and _norm(tt.ast.left) == "bc_type"
-                        and n.id in gg.reachable_from([m for m, lab in gg.succ[tt.id] if lab == "T"]) and tt.ast.comparators[0].value != "zero"]
+            # the boundary conditions under which this assignment executes (path-sensitive in bc_type; ==, in (...), or-chains, early raises alike)
+            from .common import cases_reaching, OTHER
+            lits = [c for c in cases_reaching(gg, n, "bc_type") if c is not OTHER]
             v = _norm(n.ast.value)
             m = re.fullmatch(r"self\.dim(-(\d+))?", v)
             off = -int(m.group(2)) if (m and m.group(2)) else (0 if m else None)
@@ -199,7 +234,7 @@ def run(chk, repo: Repo):
         # order awareness: does the rank (or its guards) depend on `order`?
         deps = {x.id for x in ast.walk(n.ast.value) if isinstance(x, ast.Name)} | {x.id for tt, lab in gg.guards_of(n) for x in ast.walk(tt.ast) if isinstance(x, ast.Name)}
         if lits and "zero" not in lits:
-            chk.add("C20-R4", f"{gm.qual}.__init__/rank-order-aware({'|'.join(lits)})", "order" in deps, site(repo, n.ast), "rank depends on the operator's order",
+            chk.add("C20-R4", f"{gm.qual}.__init__/rank-order-aware({'|'.join(sorted(lits))})", "order" in deps, site(repo, n.ast), "rank depends on the operator's order",
                     f"the rank `{v}` for bc_type in {lits} does not depend on `order`, but the operator does (order 0 builds the identity regardless of "
                     f"bc_type: full rank dim; order 2 with neumann has a two-dimensional null space): reported rank/logdet differ from those of the precision", n.ast)
     # R5: follow self-method calls from each class's _create_diff_matrix to the statements that assign self._matrix
